@@ -135,7 +135,7 @@ class OtoCheck(object):
             else:
                 ops.append([side, name])
         init = self.gen_pairs(r, 'fwd') + self.gen_pairs(r, 'fwd')
-        return {'kind': 'oto', 'init': init, 'init_shape': r.choice(['none', 'dict', 'pairs', 'unique']), 'ops': ops}
+        return {'kind': 'oto', 'init': init, 'init_shape': r.choice(['none', 'dict', 'pairs', 'unique', 'unique-raw']), 'ops': ops}
 
     @staticmethod
     def m_set(D, k, v):
@@ -150,6 +150,25 @@ class OtoCheck(object):
         try:
             if h.get('init_shape', 'none') == 'none':
                 o = du.OneToOne()
+            elif h['init_shape'] == 'unique-raw':
+                # OneToOne.unique() given the pairs as they come: values under two keys are refused (ValueError) - or, if an
+                # object is handed out all the same, it must be consistent (checked by what follows)
+                vals = list(dict(init).values())
+                collide = any(same(a, b) for i, a in enumerate(vals) for b in vals[i + 1:])
+                try:
+                    o = du.OneToOne.unique(dict(init))
+                except ValueError:
+                    if not collide:
+                        return Failure(-1, 'unique-refused', 'OneToOne.unique(%r) raised ValueError without colliding values' % (dict(init),), ['init'])
+                    if stats is not None:
+                        stats.count('oto_unique_refusals')
+                    return None
+                D = dict(init)
+                if collide:
+                    # not refused: then one key per value must have been kept (whichever; the statement only asks for
+                    # exact inverses, which the observation below checks)
+                    D = dict(dict.items(o)) if all(same(D.get(k), v) for k, v in dict.items(o)) \
+                        and set(dict.values(o)) == set(D.values()) else D
             elif h['init_shape'] == 'unique':
                 uniq = {}
                 for k, v in init:
